@@ -252,7 +252,7 @@ class PeerCase:
             while not self.stop:
                 # read one command line
                 while b"\n" not in buf:
-                    d = ch.recv_some()
+                    d = ch.recv_some(s.get("idle_timeout", IO_TIMEOUT))
                     if not d:
                         slog["ctl_eof"] = "reset" if ch.reset else ("clean" if ch.clean_eof or ch.tls is None else "truncated")
                         self._save_raw(st)
@@ -407,6 +407,12 @@ class PeerCase:
             while d and not d.get("done") and time.time() - t0 < 3.0:
                 time.sleep(0.001)
         if r.get("abort_data"):          # ABOR: stop a transfer in progress before answering
+            d0 = st.get("dstate")
+            if d0 is not None and d0["spec"].get("dir") == "recv":
+                # had the client ended the upload's data connection (end of file) BEFORE it sent ABOR? A real server would
+                # have completed the transfer by then and would answer ABOR with a single reply
+                time.sleep(0.03)
+                d0["rec"]["ended_before_abor"] = bool(d0.get("done")) and not d0.get("aborted")
             with st["lock"]:
                 d = st.get("dstate")
                 if d and not d.get("done"):
